@@ -68,7 +68,8 @@ FirstBad(row) == IF BadCells(row) = {} THEN 0 ELSE Min(BadCells(row))
 
 (* ---------------- one row against the current check state ---------------- *)
 KeyOf(c, row) == [i \in 1..Len(Checks[c].key) |-> row.v[Checks[c].key[i]]]
-Vetoes(c, row) == Checks[c].t = "p" /\ Checks[c].veto # 0 /\ row.v[1] = Checks[c].veto
+\* a probe check vetoes a row by the value of its first cell (an empty cell has no value)
+Vetoes(c, row) == Checks[c].t = "p" /\ Checks[c].veto # 0 /\ row.c[1] = "ok" /\ row.v[1] = Checks[c].veto
 
 \* result of running checks c..NChecks in order on a row: <<newChk, error, number of checks that saw the row>>
 RECURSIVE RunChecks(_, _, _, _, _)
@@ -329,6 +330,49 @@ CallsAsDocumented ==
   \A j \in 1..Len(hist) :
     LET r == hist[j] IN Comparable(r) => r.res.calls = Fresh(r).calls
 
+\* C20, stated from the property text (not from the fold): what the call log of a complete, closed read must look like
+IsCall(e, kind) == e[1] = kind
+CallIdx(log, kind) == {j \in 1..Len(log) : log[j][1] = kind}
+ProtocolHolds ==
+  \A n \in 1..Len(hist) :
+    LET r == hist[n]
+        log == r.res.calls
+        tbl == r.ds
+    IN (LogCalls /\ r.op = "read" /\ r.end = "close" /\ r.api = "rows" /\ tbl.fault = 0 /\ r.mode # "raise") =>
+       \* every check is reset before anything else happens, and never again
+       /\ \A c \in 1..NChecks : Len(log) >= NChecks /\ log[c] = <<"reset", c>>
+       /\ CallIdx(log, "reset") = 1..NChecks
+       \* rows in the header or beyond the limit cause no calls at all
+       /\ \A j \in 1..Len(log) : log[j][1] \in {"value", "check_row"} => InWindow(r.limit, log[j][3])
+       \* the value hook: only non-empty cells that passed the guards, in column order, never beyond the first rejected cell
+       /\ \A i \in 1..Len(tbl.rows) : \A f \in 1..NFields :
+            LET row == tbl.rows[i]
+                called == \E j \in 1..Len(log) : log[j] = <<"value", f, i>>
+                wanted == /\ InWindow(r.limit, i) /\ row.w = "ok"
+                          /\ row.c[f] \in {"ok", "rej"}
+                          /\ \A g \in 1..(f - 1) : row.c[g] \in {"ok", "emp"}
+            IN called <=> wanted
+       /\ \A j, k \in CallIdx(log, "value") : (j < k /\ log[j][3] = log[k][3]) => log[j][2] < log[k][2]
+       \* a check sees a row exactly once iff all its cells were accepted and no earlier-declared check rejected it
+       /\ \A i \in 1..Len(tbl.rows) : \A c \in 1..NChecks :
+            LET row == tbl.rows[i]
+                seen == Cardinality({j \in 1..Len(log) : log[j] = <<"check_row", c, i>>})
+                wanted == /\ InWindow(r.limit, i) /\ row.w = "ok" /\ FirstBad(row) = 0
+                          /\ \A d \in 1..(c - 1) : ~Vetoes(d, row)
+            IN seen = (IF wanted THEN 1 ELSE 0)
+       \* calls follow the rows in input order
+       /\ \A j, k \in 1..Len(log) : (j < k /\ log[j][1] \in {"value", "check_row"} /\ log[k][1] \in {"value", "check_row"})
+                                      => log[j][3] <= log[k][3]
+       \* at close: end-of-data verdicts once, in declaration order, up to the first failure; then every check is cleaned up
+       /\ LET ends == CallIdx(log, "check_at_end")
+              cleans == CallIdx(log, "cleanup")
+          IN /\ \A j \in ends : \A k \in CallIdx(log, "value") \cup CallIdx(log, "check_row") : k < j
+             /\ \A j \in ends : \A k \in cleans : j < k
+             /\ Cardinality(cleans) = NChecks /\ \A c \in 1..NChecks : \E j \in cleans : log[j] = <<"cleanup", c>>
+             /\ \A j, k \in ends : j < k => log[j][2] < log[k][2]
+             /\ Cardinality(ends) >= (IF NChecks > 0 THEN 1 ELSE 0)
+             /\ \A j \in cleans : j > Len(log) - NChecks
+
 \* the remaining invariants speak about single runs; they are evaluated on the run that just ended
 Last == hist[Len(hist)]
 JustEnded == Len(hist) > 0 /\ sess.kind = "none"
@@ -479,5 +523,5 @@ Emit == (sess.kind = "none" /\ Len(hist) = MaxOps) =>
                                               THEN ExpectedRead(hist[j].api, hist[j].mode, hist[j].limit, hist[j].end, hist[j].k,
                                                                 hist[j].ds, TRUE, FALSE)
                                               ELSE ExpectedWrite(hist[j].ds, hist[j].end = "close", TRUE)]],
-                           header |-> Header, nfields |-> NFields, checks |-> Checks])>>)
+                           header |-> Header, nfields |-> NFields, checks |-> Checks, logcalls |-> LogCalls])>>)
 =============================================================================
